@@ -13,7 +13,8 @@ From Knut Require Import Model.Str Model.Dec Model.Date Model.Account Model.Ledg
      Model.Cli Model.Perf Model.Weights Model.CliPortfolio Spec.PortfolioSpec
      Spec.PortfolioMapSpec
      Proofs.PortfolioDays Proofs.PortfolioReturns Proofs.PortfolioWeights Proofs.PortfolioWitness
-     Proofs.PortfolioProofs Proofs.PortfolioTree Proofs.PortfolioMapping Proofs.PortfolioMapWitness.
+     Proofs.PortfolioProofs Proofs.PortfolioTree Proofs.PortfolioMapping Proofs.PortfolioMapWitness
+     Proofs.PortfolioTable Proofs.PortfolioTableLaw.
 Import ListNotations.
 Open Scope Q_scope.
 
@@ -144,6 +145,40 @@ Theorem C20_mapping_law_local : forall cfg ds es0 es p d x,
 Proof. exact mapping_law_local. Qed.
 Print Assumptions C20_mapping_law_local.
 
+(* The mapping law on the tables: the executable statement the check evaluates on the binary's two text
+   tables (Spec/PortfolioSpec.mapping_law_b: every leaf row of the table WITHOUT -m has a row of the
+   table WITH -m to be folded into; every row WITH -m = the leaf rows WITHOUT -m that map_path sends
+   to the row's path + the row's member rows, paths and members read off the indentation) holds, with
+   tolerance 0, of the rows of the two tables of the model ([srows]: depth = indent / 2) -- for every
+   configuration (universe, mapping, filters, window, sort order) and journal, provided
+     [prefix_free es0]  in the run without -m no commodity's path is a proper prefix of another's
+                        (a class is not named like a classified commodity's path): otherwise that
+                        commodity is no leaf row of the table without -m and mapping_law_b is FALSE
+                        of the correct tables, see C20_w4_needs_prefix_free;
+     paths non-empty    the mapping hides no commodity altogether (level 0): otherwise
+                        leaves_placed_b is false, the commodity has no row;
+     [defined_entries]  no weight is a division by a zero total.
+   Full statement, NOT proved (C20_mapping_law_table): the same without [defined_entries es0] --
+   mapping_law_b skips the columns in which the row, a member or a leaf row is not a finite number,
+   so the law should hold of the remaining columns.  That needs the sums of this file (wm_add_sum ...
+   propagate_spec, report_total) per date, under "the entries OF THAT DATE are defined", and: an
+   undefined entry makes the cell of its leaf row undefined. *)
+Theorem C20_mapping_law_table_partial : forall cfg ds es0 es t0 t,
+  weights_entries (pf_unmapped cfg) ds = COk es0 -> weights_entries cfg ds = COk es ->
+  defined_entries es0 -> prefix_free es0 -> Forall (fun e => entry_path e <> []) es ->
+  weights_table (pf_unmapped cfg) ds = COk t0 -> weights_table cfg ds = COk t ->
+  mapping_law_b 0 (length (fst t)) (pc_mapping cfg) (srows t0) (srows t) = true.
+Proof. exact mapping_law_table. Qed.
+Print Assumptions C20_mapping_law_table_partial.
+
+(* the same for entries: any two sort orders, any mapping under which map_entries succeeds *)
+Theorem C20_mapping_law_rows_partial : forall m es0 es a0 a,
+  map_entries m es0 = Some es ->
+  defined_entries es0 -> prefix_free es0 -> Forall (fun e => entry_path e <> []) es ->
+  mapping_law_b 0 (length (report_dates es)) m (srows (render_weights a0 es0)) (srows (render_weights a es)) = true.
+Proof. exact table_law. Qed.
+Print Assumptions C20_mapping_law_rows_partial.
+
 (* where the command with -m runs, the command without -m runs *)
 Theorem C20_unmapped_runs : forall cfg ds es,
   weights_entries cfg ds = COk es -> exists es0, weights_entries (pf_unmapped cfg) ds = COk es0.
@@ -251,4 +286,31 @@ Proof.
   destruct w3_runs as [H1 [H2 _]]. destruct w3_node_law as [H3 [H4 [H5 _]]]. destruct w3_laws as [H6 H7].
   split; [exact H1|]. split; [exact H2|]. split; [exact w3_defined|]. split; [exact w3_leaf_and_group|].
   split; [exact H3|]. split; [exact H4|]. split; [exact H5|]. split; [exact H6|exact H7].
+Qed.
+
+(* the hypotheses of C20_mapping_law_table_partial hold of W3, and its conclusion is what vm_compute finds *)
+Example C20_w3_table_law :
+  defined_entries w3_entries0 /\ prefix_free w3_entries0 /\ Forall (fun e => entry_path e <> []) w3_entries /\
+  mapping_law_b 0 (length (fst w3_table)) (pc_mapping w3_cfg) (srows w3_table0) (srows w3_table) = true.
+Proof.
+  destruct w3_runs as [H1 [H2 [H3 H4]]].
+  split; [exact w3_defined|]. split; [exact w3_prefix_free|]. split; [exact w3_nonempty|].
+  exact (C20_mapping_law_table_partial w3_cfg w3_journal w3_entries0 w3_entries w3_table0 w3_table
+           H2 H1 w3_defined w3_prefix_free w3_nonempty H4 H3).
+Qed.
+
+(* W4: universe Equity (AAPL), Equity:AAPL (NESN), Cash (CHF), `-m 1,^Cash`.  Every hypothesis of the table
+   theorem but prefix_free holds ([Equity; AAPL] is a proper prefix of [Equity; AAPL; NESN]) and
+   mapping_law_b is false of the model's tables: the executable statement presupposes prefix_free. *)
+Example C20_w4_needs_prefix_free :
+  weights_entries (pf_unmapped w4_cfg) w3_journal = COk w4_entries0 /\ weights_entries w4_cfg w3_journal = COk w4_entries /\
+  weights_table (pf_unmapped w4_cfg) w3_journal = COk w4_table0 /\ weights_table w4_cfg w3_journal = COk w4_table /\
+  defined_entries w4_entries0 /\ Forall (fun e => entry_path e <> []) w4_entries /\
+  ~ prefix_free w4_entries0 /\
+  mapping_law_b 0 (length (fst w4_table)) (pc_mapping w4_cfg) (srows w4_table0) (srows w4_table) = false.
+Proof.
+  destruct w4_runs as [H1 [H2 [H3 H4]]]. destruct w4_hyps as [H5 H6]. destruct w4_not_prefix_free as [H7 H8].
+  split; [exact H1|]. split; [exact H2|]. split; [exact H3|]. split; [exact H4|]. split; [exact H5|]. split; [exact H6|].
+  split; [|exact w4_law_fails].
+  intros Hpf. specialize (Hpf _ _ H7 H8). vm_compute in Hpf. discriminate Hpf.
 Qed.
